@@ -28,6 +28,9 @@ pub enum Damage {
     /// not a damage: an empty BGZF member (the EOF marker block) inserted at the member boundary
     /// selected per-mille — the valid `cat a.bgz b.bgz` shape (BGZF based files only)
     EmptyMember(u16),
+    /// not a damage: the document as text rendered by the harness itself instead of by a noodles
+    /// writer (CRLF line ends, no final newline, raw UTF-8) — text formats only
+    RawText,
 }
 
 #[derive(Clone, Debug, Serialize, Deserialize)]
@@ -84,6 +87,12 @@ fn check_reader(name: &'static str, c: &Case) -> Verdict {
             }
             false
         }
+        Damage::RawText => {
+            if let Some(b) = drv.raw_input(&c.doc) {
+                bytes = b;
+            }
+            false
+        }
     };
     if let Some(p) = std::env::var_os("NV_C16_DUMP") {
         let _ = std::fs::write(p, &bytes);
@@ -91,7 +100,7 @@ fn check_reader(name: &'static str, c: &Case) -> Verdict {
     let data = Arc::new(bytes);
     let opts = ReadOpts { max_events: 50_000, ..ReadOpts::default() };
     let (sync_t, _) = drv.read(&data, &Delivery::Plain, &c.doc, &opts);
-    if !damaged && sync_t.iter().any(|e| matches!(e, Ev::Err { .. } | Ev::Runaway)) {
+    if !damaged && !matches!(c.damage, Damage::RawText) && sync_t.iter().any(|e| matches!(e, Ev::Err { .. } | Ev::Runaway)) {
         return fail1(format!("c16.baseline-read-error:{name}"), summarize(&sync_t));
     }
     let Some((async_t, st)) = read_async(name, &data, &c.doc, &c.script, c.workers as usize, &opts) else {
@@ -165,6 +174,7 @@ fn check_reader(name: &'static str, c: &Case) -> Verdict {
         .label_if(kind_differs, "same-stage-different-error-kind(not asserted)")
         .label_if(!damaged, "valid-input")
         .label_if(matches!(c.damage, Damage::EmptyMember(_)) && drv.is_bgzf(), "empty-member-mid-file")
+        .label_if(matches!(c.damage, Damage::RawText) && drv.raw_input(&c.doc).is_some(), "harness-rendered-text")
         .label_if(drivers::records_of(&sync_t).len() >= 2, "records>=2")
         .label_if(c.workers > 1, "workers>1"))
 }
@@ -267,6 +277,7 @@ pub fn property() -> Property {
                         1 => (0u16..=1000).prop_map(Damage::Truncate),
                         1 => (0u16..1000, any::<u8>()).prop_map(|(p, x)| Damage::Flip(p, x)),
                         2 => (0u16..=1000).prop_map(Damage::EmptyMember),
+                        2 => Just(Damage::RawText),
                     ];
                     (doc, script(), 1u8..=8, damage).prop_map(|(doc, script, workers, damage)| Case { doc, script, workers, damage }).boxed()
                 }),
